@@ -7,7 +7,7 @@
 (*                                                                         *)
 (* Tag prefixes name the property a conjunct belongs to (C01..C19).        *)
 (***************************************************************************)
-EXTENDS Auth, TraceBase
+EXTENDS Auth, Errors, TraceBase
 
 VARIABLES seen,    \* challenge values seen in this scenario (server and client side)
           acc      \* accepted reconnect triples <<server challenge, client data, proof>>
@@ -90,6 +90,8 @@ TrPubKey ==
                      <<"C04.iff", ~ImplPanic(e) => ((e.res.kind = "ok") = valid)>>,
                      <<"C04.kind", e.res.kind = "err" => e.res.err = KeyErrKind(e.bytes)>>,
                      <<"C04.unchanged", e.res.kind = "ok" => e.res.bytes = e.bytes>>,
+                     <<"EXT.display", e.res.kind = "err" =>
+                          (e.res.display = KeyErrText(e.res.err) /\ e.res.viaSrpError = e.res.display)>>,
                      <<"C15.nodraw", NoDraws(e)>> >>,
                   {"PubKey"} \cup (IF valid THEN {} ELSE {"PubKey.invalid"}))
     /\ UNCHANGED <<seen, acc>>
@@ -159,6 +161,7 @@ TrIntoServer ==
                      <<"C02.noSession", e.res.kind = "err" => out'.kind = "err">>,
                      <<"C02.srvPayload", (e.res.kind = "err" /\ out'.kind = "err") =>
                           (e.res.client = e.M1 /\ e.res.server = out'.server)>>,
+                     <<"EXT.display", e.res.kind = "err" => e.res.display = MatchProofsText(e.res.client, e.res.server)>>,
                      <<"C03.M2", (ok /\ out'.kind = "ok") => e.res.M2 = out'.M2>>,
                      <<"C03.K", (ok /\ out'.kind = "ok") => e.res.K = out'.K>>,
                      <<"C15.draw.ReconnectData", dok>>,
